@@ -68,12 +68,14 @@ def run(ctx: Ctx) -> None:
     ok = len(smp) == 1
     if ok:
         kw = named_args(smp[0])
-        src = unparse(smp[0].func.value)
-        sdef = asg.get(src)
-        ok = kw.get('n') == kname and kw.get('replace') == 'False' and sdef is not None and re.fullmatch(r'self\.alternatives\[self\.alternatives\[self\.id_column\]\.isin\((\w+)\)\]', unparse(sdef.value)) is not None
+        recv = smp[0].func.value
+        sdef = asg.get(unparse(recv)) if isinstance(recv, ast.Name) else None
+        frame = sdef.value if sdef is not None else recv  # the rows of the stratum, through a local or in place
+        mm = re.fullmatch(r'self\.alternatives\[self\.alternatives\[self\.id_column\]\.isin\((\w+)\)\]', unparse(frame))
+        ok = kw.get('n') == kname and kw.get('replace') == 'False' and mm is not None
         if ok:
-            ids = re.fullmatch(r'self\.alternatives\[self\.alternatives\[self\.id_column\]\.isin\((\w+)\)\]', unparse(sdef.value)).group(1)
-            ok = ids in asg and seq(sdef) > seq(chosen_if[0]) and seq(smp[0]) > seq(chosen_if[0])
+            ids = mm.group(1)
+            ok = ids in asg and (sdef is None or seq(sdef) > seq(chosen_if[0])) and seq(smp[0]) > seq(chosen_if[0])
     ctx.add('C19.R1', 'sample_alternatives:draw', ok, (f.file, smp[0].lineno if smp else lp.lineno), 'k (or k-1) alternatives are drawn without replacement among the ids of the stratum, after the chosen one was set aside' if ok else 'the draw inside a stratum changed', 'draw')
     sw = [s for s in body if isinstance(s, ast.Assign) and unparse(s.targets[0]).endswith('[LOG_PROBA_COL]') and unparse(s.targets[0]) != f'{CH}[LOG_PROBA_COL]']
     ok = len(sw) == 1 and unparse(sw[0].value) == lpv
@@ -131,22 +133,20 @@ _ALL = pd.concat(_RES, ignore_index=True)
     # ---- R2 / R3
     G = prog.cls(CS, 'ChoiceSetsGeneration')
     pr = G.methods['process_row']
-    b = body_is(pr.body, """
+    ok = body_is(pr.body, """
 _CHOICE = individual_row[self.choice_column]
 _FIRST = self.sampling_of_alternatives.sample_alternatives(chosen=_CHOICE)
 _FS = _FIRST.stack()
-_FD = __D1
+_FD = {f'{_C}_{_R}': _V for (_R, _C), _V in _FS.items()}
 _ROW = individual_row.to_dict()
 _ROW.update(_FD)
 if self.second_partition is not None:
     _SECOND = self.sampling_of_alternatives.sample_mev_alternatives()
     _SS = _SECOND.stack()
-    _SD = __D2
+    _SD = {f'{MEV_PREFIX}{_C}_{_R}': _V for (_R, _C), _V in _SS.items()}
     _ROW.update(_SD)
 return _ROW
-""")
-    ok = b is not None and m_node(_parse(f"{{f'{{_C}}_{{_R}}': _V for (_R, _C), _V in {b['_FS']}.items()}}")[0].value, b['__D1'][1], {}) \
-        and m_node(_parse(f"{{f'{{MEV_PREFIX}}{{_C}}_{{_R}}': _V for (_R, _C), _V in {b['_SS']}.items()}}")[0].value, b['__D2'][1], {})
+""") is not None
     ctx.add('C19.R2', 'process_row', ok, pr, 'columns are <column>_<row> for the main sample and _MEV_<column>_<row> for the second one; the sample is drawn for the choice of that individual' if ok else 'naming of the flattened columns changed', 'process_row')
     dv = G.methods['define_new_variables']
     ok = has(dv.node, """
